@@ -150,6 +150,8 @@ class Ctx:
         self.shrink_budget_s = 25.0 if tier == "quick" else 120.0
         self._scratch: str | None = None
         self._tmp_n = 0
+        self._case_n = 0
+        self._in_case = False
 
     # -- scratch ---------------------------------------------------------
     @property
@@ -162,9 +164,27 @@ class Ctx:
             self._scratch = tempfile.mkdtemp(prefix=f"vfw-{self.pid}-{self.shard}-", dir=base)
         return self._scratch
 
+    def begin_case(self):
+        """Scratch names are RECYCLED from case to case: the k-th scratch path of every case of a shard is the same
+        path (t<k><suffix>), so every case is also a 'second use of the same path in one process' history.  A library
+        that keeps state keyed by file name, URI or BINS argument across calls shows up as an ordinary content mismatch.
+        Leftovers of the previous case are removed first, so a case never sees another case's files."""
+        if self._scratch is not None and self._in_case:
+            for name in os.listdir(self._scratch):
+                if name.startswith("t"):
+                    self.clean(os.path.join(self._scratch, name))
+        self._in_case = True
+        self._case_n = 0
+
     def tmp(self, suffix: str = "") -> str:
+        if self._in_case and os.environ.get("VERIF_UNIQUE_PATHS") != "1":
+            self._case_n += 1
+            p = os.path.join(self.scratch, f"t{self._case_n}{suffix}")
+            if os.path.lexists(p):
+                self.clean(p)
+            return p
         self._tmp_n += 1
-        return os.path.join(self.scratch, f"t{self._tmp_n}{suffix}")
+        return os.path.join(self.scratch, f"r{self._tmp_n}{suffix}")
 
     def tmpdir(self) -> str:
         p = self.tmp()
@@ -308,6 +328,7 @@ def run_given(ctx: Ctx, part: str, strategy, check_fn: Callable[[dict, Ctx], Non
                 return
             if ctx.first_failure_t is None and time.time() > ctx.deadline + 30:
                 return  # hard stop inside a batch (very slow cases)
+            ctx.begin_case()
             try:
                 check_fn(case, ctx)
             except Violation as e:
@@ -376,6 +397,7 @@ def run_enumerated(ctx: Ctx, part: str, items, check_fn: Callable[[dict, Ctx], N
         if ctx.expired():
             ctx.notes.append(f"{part}: budget exhausted during enumeration")
             return True
+        ctx.begin_case()
         try:
             check_fn(case, ctx)
         except Violation as e:
